@@ -1,0 +1,304 @@
+//go:build verif
+// +build verif
+
+package xpath
+
+// Verification hooks (add-only, compiled only with `-tags verif`).
+// They expose read-only views of internal structures to the harness in /verif:
+// the parse tree, the built query tree, the node identity key and the loading cache.
+
+import (
+	"bytes"
+	"encoding/hex"
+	"errors"
+	"fmt"
+	"math"
+	"reflect"
+)
+
+func verifHex(s string) string { return "h" + hex.EncodeToString([]byte(s)) }
+
+func verifNodeTypeName(t NodeType) string {
+	switch t {
+	case RootNode:
+		return "root"
+	case ElementNode:
+		return "elem"
+	case AttributeNode:
+		return "attr"
+	case TextNode:
+		return "text"
+	case CommentNode:
+		return "comment"
+	case allNode:
+		return "all"
+	}
+	return "?"
+}
+
+func verifDumpNode(b *bytes.Buffer, n node) {
+	if n == nil || reflect.ValueOf(n).IsNil() {
+		b.WriteString("_")
+		return
+	}
+	switch x := n.(type) {
+	case *rootNode:
+		fmt.Fprintf(b, "(R %s)", verifHex(x.slash))
+	case *axisNode:
+		ns := "0"
+		if x.hasNamespaceURI {
+			ns = "1"
+		}
+		fmt.Fprintf(b, "(A %s %s %s %s %s %s %s ", x.AxisType, verifNodeTypeName(x.typeTest),
+			verifHex(x.Prefix), verifHex(x.LocalName), verifHex(x.Prop), ns, verifHex(x.namespaceURI))
+		verifDumpNode(b, x.Input)
+		b.WriteString(")")
+	case *filterNode:
+		b.WriteString("(F ")
+		verifDumpNode(b, x.Input)
+		b.WriteString(" ")
+		verifDumpNode(b, x.Condition)
+		b.WriteString(")")
+	case *functionNode:
+		fmt.Fprintf(b, "(C %s %s", verifHex(x.FuncName), verifHex(x.Prefix))
+		for _, a := range x.Args {
+			b.WriteString(" ")
+			verifDumpNode(b, a)
+		}
+		b.WriteString(")")
+	case *operatorNode:
+		fmt.Fprintf(b, "(O %s ", verifHex(x.Op))
+		verifDumpNode(b, x.Left)
+		b.WriteString(" ")
+		verifDumpNode(b, x.Right)
+		b.WriteString(")")
+	case *operandNode:
+		switch v := x.Val.(type) {
+		case string:
+			fmt.Fprintf(b, "(S %s)", verifHex(v))
+		case float64:
+			fmt.Fprintf(b, "(N %016x)", math.Float64bits(v))
+		default:
+			fmt.Fprintf(b, "(?operand %T)", v)
+		}
+	case *groupNode:
+		b.WriteString("(G ")
+		verifDumpNode(b, x.Input)
+		b.WriteString(")")
+	case *variableNode:
+		fmt.Fprintf(b, "(V %s %s)", verifHex(x.Prefix), verifHex(x.Name))
+	default:
+		fmt.Fprintf(b, "(?node %T)", n)
+	}
+}
+
+// VerifParseDump parses expr and returns a fully parenthesised rendering of the parse tree.
+// Panics of the scanner/parser are converted to an error exactly as build() converts them.
+func VerifParseDump(expr string, namespaces map[string]string) (s string, err error) {
+	defer func() {
+		if e := recover(); e != nil {
+			switch x := e.(type) {
+			case string:
+				err = errors.New(x)
+			case error:
+				err = x
+			default:
+				err = errors.New("unknown panic")
+			}
+		}
+	}()
+	root := parse(expr, namespaces)
+	var b bytes.Buffer
+	verifDumpNode(&b, root)
+	return b.String(), nil
+}
+
+func verifDumpQuery(b *bytes.Buffer, q query) {
+	if q == nil || (reflect.ValueOf(q).Kind() == reflect.Ptr && reflect.ValueOf(q).IsNil()) {
+		b.WriteString("_")
+		return
+	}
+	flag := func(name string, v bool) {
+		if v {
+			b.WriteString(" " + name)
+		}
+	}
+	switch x := q.(type) {
+	case *contextQuery:
+		b.WriteString("(context)")
+	case *absoluteQuery:
+		b.WriteString("(absolute)")
+	case *ancestorQuery:
+		b.WriteString("(ancestor")
+		flag("self", x.Self)
+		b.WriteString(" ")
+		verifDumpQuery(b, x.Input)
+		b.WriteString(")")
+	case *attributeQuery:
+		b.WriteString("(attribute ")
+		verifDumpQuery(b, x.Input)
+		b.WriteString(")")
+	case *childQuery:
+		b.WriteString("(child ")
+		verifDumpQuery(b, x.Input)
+		b.WriteString(")")
+	case *cachedChildQuery:
+		b.WriteString("(cachedChild ")
+		verifDumpQuery(b, x.Input)
+		b.WriteString(")")
+	case *descendantQuery:
+		b.WriteString("(descendant")
+		flag("self", x.Self)
+		b.WriteString(" ")
+		verifDumpQuery(b, x.Input)
+		b.WriteString(")")
+	case *followingQuery:
+		b.WriteString("(following")
+		flag("sibling", x.Sibling)
+		b.WriteString(" ")
+		verifDumpQuery(b, x.Input)
+		b.WriteString(")")
+	case *precedingQuery:
+		b.WriteString("(preceding")
+		flag("sibling", x.Sibling)
+		b.WriteString(" ")
+		verifDumpQuery(b, x.Input)
+		b.WriteString(")")
+	case *parentQuery:
+		b.WriteString("(parent ")
+		verifDumpQuery(b, x.Input)
+		b.WriteString(")")
+	case *selfQuery:
+		b.WriteString("(self ")
+		verifDumpQuery(b, x.Input)
+		b.WriteString(")")
+	case *filterQuery:
+		b.WriteString("(filter ")
+		verifDumpQuery(b, x.Input)
+		b.WriteString(" ")
+		verifDumpQuery(b, x.Predicate)
+		b.WriteString(")")
+	case *functionQuery:
+		b.WriteString("(function ")
+		verifDumpQuery(b, x.Input)
+		b.WriteString(")")
+	case *transformFunctionQuery:
+		b.WriteString("(transform ")
+		verifDumpQuery(b, x.Input)
+		b.WriteString(")")
+	case *constantQuery:
+		switch v := x.Val.(type) {
+		case string:
+			fmt.Fprintf(b, "(const S %s)", verifHex(v))
+		case float64:
+			fmt.Fprintf(b, "(const N %016x)", math.Float64bits(v))
+		default:
+			fmt.Fprintf(b, "(const ? %T)", v)
+		}
+	case *groupQuery:
+		b.WriteString("(group ")
+		verifDumpQuery(b, x.Input)
+		b.WriteString(")")
+	case *logicalQuery:
+		b.WriteString("(logical ")
+		verifDumpQuery(b, x.Left)
+		b.WriteString(" ")
+		verifDumpQuery(b, x.Right)
+		b.WriteString(")")
+	case *numericQuery:
+		b.WriteString("(numeric ")
+		verifDumpQuery(b, x.Left)
+		b.WriteString(" ")
+		verifDumpQuery(b, x.Right)
+		b.WriteString(")")
+	case *booleanQuery:
+		b.WriteString("(boolean")
+		flag("or", x.IsOr)
+		b.WriteString(" ")
+		verifDumpQuery(b, x.Left)
+		b.WriteString(" ")
+		verifDumpQuery(b, x.Right)
+		b.WriteString(")")
+	case *unionQuery:
+		b.WriteString("(union ")
+		verifDumpQuery(b, x.Left)
+		b.WriteString(" ")
+		verifDumpQuery(b, x.Right)
+		b.WriteString(")")
+	case *lastFuncQuery:
+		b.WriteString("(lastFunc ")
+		verifDumpQuery(b, x.Input)
+		b.WriteString(")")
+	case *descendantOverDescendantQuery:
+		b.WriteString("(descOverDesc")
+		flag("matchSelf", x.MatchSelf)
+		b.WriteString(" ")
+		verifDumpQuery(b, x.Input)
+		b.WriteString(")")
+	case *mergeQuery:
+		b.WriteString("(merge ")
+		verifDumpQuery(b, x.Input)
+		b.WriteString(" ")
+		verifDumpQuery(b, x.Child)
+		b.WriteString(")")
+	case nopQuery:
+		b.WriteString("(nop)")
+	default:
+		fmt.Fprintf(b, "(?query %T)", q)
+	}
+}
+
+// VerifPlanDump compiles expr and returns an s-expression of the built query tree
+// (struct types and configuration flags; closures are opaque).
+func VerifPlanDump(expr string, namespaces map[string]string) (string, error) {
+	q, err := build(expr, namespaces)
+	if err != nil {
+		return "", err
+	}
+	var b bytes.Buffer
+	verifDumpQuery(&b, q)
+	return b.String(), nil
+}
+
+// VerifHashKey returns the node identity hash used by union and ancestor de-duplication.
+func VerifHashKey(n NodeNavigator) uint64 { return getHashCode(n.Copy()) }
+
+// VerifCache wraps a loadingCache for the harness.
+type VerifCache struct{ c *loadingCache }
+
+// VerifNewCache creates a loading cache (panics like NewLoadingCache on a negative capacity).
+func VerifNewCache(load func(key interface{}) (interface{}, error), capacity int) *VerifCache {
+	return &VerifCache{c: NewLoadingCache(load, capacity)}
+}
+
+// Get calls loadingCache.get.
+func (v *VerifCache) Get(key interface{}) (interface{}, error) { return v.c.get(key) }
+
+// Stats returns len(m), cap and reset under the read lock.
+func (v *VerifCache) Stats() (size, capacity, resets int) {
+	v.c.RLock()
+	defer v.c.RUnlock()
+	return len(v.c.m), v.c.cap, v.c.reset
+}
+
+// Keys returns the keys currently held, rendered with %v, unsorted.
+func (v *VerifCache) Keys() []string {
+	v.c.RLock()
+	defer v.c.RUnlock()
+	var ks []string
+	for k := range v.c.m {
+		ks = append(ks, fmt.Sprint(k))
+	}
+	return ks
+}
+
+// VerifRegexpCacheStats reports the package-level RegexpCache.
+func VerifRegexpCacheStats() (size, capacity, resets int) {
+	RegexpCache.RLock()
+	defer RegexpCache.RUnlock()
+	return len(RegexpCache.m), RegexpCache.cap, RegexpCache.reset
+}
+
+// VerifFormatNumber renders a float64 the way asString does.
+func VerifFormatNumber(f float64) string { return asString(nil, f) }
+
